@@ -493,12 +493,14 @@ class StmtMixin:
         hs.env[f"__k{ordinal}__"] = k
         self.assign_target(node.target, elem(k), hs)
         head_env = dict(hs.env)
+        head_st = hs.copy()
         body_outs = self.in_loop_frame(spec, lambda: self.exec_block(node.body, hs) if self.feasible(hs) else [])
         for o in body_outs:
             if o.kind in ("normal", "continue"):
                 if spec.hints:
                     vv = Vars(o.state.env)
                     vv.head = Vars(head_env)
+                    vv.head_cx = Ctx(self, head_st, self.entry_state)      # heap (and ghost log) as at the head of this iteration
                     hs_ = []
                     for h in spec.hints:
                         r_ = h(Ctx(self, o.state, self.entry_state), k, vv)
